@@ -19,6 +19,11 @@ NOTE = ('Trusted: CrossHair byte-code interpreter and its str/int/list/dict/re m
 
 # id -> (level text, design ref)
 CLAIMED = {
+    'C12': ('Real parse_path with the configuration objects of 12 real path arguments x 11 relativities x 15 file-name shapes; chains of '
+            'def path / def string (depth <= 2 / 3) through the real def instruction and validate_symbol_usages; whole program (--keep) '
+            'for file / dir / copy destinations in every phase with effects compared on disk and an unchanged home directory on rejection; '
+            '-rel-cd resolved at time of use; reading arguments. Selector-level (paths are a C boundary), exhaustive over the catalogues. '
+            'One known finding (absolute FILE-NAME) excluded by region.', '4/C12'),
     'C19': ('Time as a symbolic integer: ProcessExecutor.execute with symbolic duration/timeout/exit code against the contract of '
             'subprocess.call; and the plumbing of the timeout value to every process-starting site (act; $, %, run in every phase; programs as '
             'text sources of file and env; run as transformer and as matcher) through the real MainProgram on generated cases, with the '
